@@ -286,18 +286,21 @@ impl fmt::Display for Formatter {
                         write_sep(f, i, &self.format)?;
                         write!(f, "{}", self.epoch.day_of_year())?
                     }
+                    Token::Weekday => {
+                        write_sep(f, i, &self.format)?;
+                        write!(f, "{}", self.epoch.weekday())?
+                    }
+                    Token::WeekdayShort => {
+                        write_sep(f, i, &self.format)?;
+                        write!(f, "{:x}", self.epoch.weekday())?
+                    }
                     Token::WeekdayDecimal => {
                         write_sep(f, i, &self.format)?;
                         write!(f, "{}", self.epoch.weekday().to_c89_weekday())?
                     }
                     _ => unreachable!(),
                 };
-
-                if let Some(sep) = item.sep_char {
-                    write!(f, "{sep}")?;
-                } else if let Some(sep) = item.second_sep_char {
-                    write!(f, "{sep}")?;
-                }
+                // NOTE: the separators of this item are written by `write_sep` before the next item, like in the Gregorian branch.
             }
         }
         Ok(())
